@@ -265,9 +265,10 @@ def kani_playback(scratch, harness, features="default", zflags=(), timeout_s=600
     modfile = harness.split("::")[0] + ".rs"
     path = os.path.join(scratch, "src", modfile)
     text = open(path).read()
-    idx = text.rstrip().rfind("}")
-    text = text[:idx] + "\n" + test + "\n" + text[idx:]
-    open(path, "w").write(text)
+    if tname not in text:  # the same counterexample may already have been inserted for another configuration
+        idx = text.rstrip().rfind("}")
+        text = text[:idx] + "\n" + test + "\n" + text[idx:]
+        open(path, "w").write(text)
     cmd2 = ["cargo", "kani", "playback", "-Z", "concrete-playback"] + FEATURE_SETS[features] + ["--", tname]
     try:
         p2 = subprocess.run(cmd2, cwd=scratch, env=dict(ENV, RUST_BACKTRACE="0"), stdout=subprocess.PIPE, stderr=subprocess.STDOUT, text=True,
